@@ -10,6 +10,7 @@ import (
 	"os/exec"
 	"runtime/debug"
 	"strconv"
+	"sync"
 	"time"
 
 	"harness/hx"
@@ -78,6 +79,26 @@ func groupBounds(s *sink, g *hx.Gen) {
 					}
 				}
 				vals = append(vals, hx.Str("010"+nm[0]), hx.Str("0019"+nm[0]), hx.Str("00"+nm[0]))
+			}
+			// a second definition of the same scale (same base names, same multiplier amounts) whose multiplier
+			// units are NAMED differently: each accepts its own names only, whichever was used first
+			if len(t.Units.Mults) > 0 {
+				twinU := &hx.Units{Base: t.Units.Base}
+				for _, m := range t.Units.Mults {
+					twinU.Mults = append(twinU.Mults, hx.UnitMult{M: m.M, Names: [4]string{m.Names[0] + "i", m.Names[1] + "i", m.Names[2] + "i", m.Names[3] + "i"}})
+				}
+				twin := *t
+				twin.Units = twinU
+				m0, t0 := t.Units.Mults[0], twinU.Mults[0]
+				pairs := []struct {
+					ty *hx.Ty
+					s  string
+				}{{t, "3" + m0.Names[0]}, {&twin, "3" + t0.Names[0]}, {t, "3" + t0.Names[0]}, {&twin, "3" + m0.Names[0]},
+					{t, "2" + m0.Names[2] + " 1" + t.Units.Base[0]}, {&twin, "2" + t0.Names[2] + " 1" + t.Units.Base[0]}}
+				g.R.Shuffle(len(pairs), func(i, j int) { pairs[i], pairs[j] = pairs[j], pairs[i] })
+				for _, pr := range pairs {
+					s.emit("U", pr.ty, hx.Str(pr.s), nil, false, "class", "bounds:twin-units")
+				}
 			}
 			// several components, each below 2^63, whose TOTAL lies beyond 2^64 (a sum that wraps twice is
 			// non-negative again) or just beyond 2^63
@@ -343,6 +364,22 @@ func groupObjects(s *sink, g *hx.Gen) {
 			s.emit("S", t, hx.Enc(nm), nm, true, "class", "objects:native-subset")
 		}
 	}
+	// property IDs that look like numbers or booleans, and keys that RENDER to them without being strings
+	{
+		nt := &hx.Ty{T: "obj", ID: "N", Props: []hx.NamedProp{
+			{Name: "1", P: &hx.Prop{Ty: &hx.Ty{T: "int"}}}, {Name: "true", P: &hx.Prop{Ty: &hx.Ty{T: "str"}}},
+			{Name: "2.5", P: &hx.Prop{Ty: &hx.Ty{T: "bool"}}}, {Name: "k", P: &hx.Prop{Ty: &hx.Ty{T: "int"}}}}}
+		one := hx.Int("int64", 1)
+		for _, m := range []*hx.Val{
+			hx.AnyAny([2]*hx.Val{hx.Str("1"), one}), hx.AnyAny([2]*hx.Val{hx.Int("int64", 1), one}), hx.AnyAny([2]*hx.Val{hx.Int("int", 1), one}),
+			hx.AnyAny([2]*hx.Val{hx.Uint("uint8", 1), one}), hx.AnyAny([2]*hx.Val{hx.Bool(true), hx.Str("x")}), hx.AnyAny([2]*hx.Val{hx.F64(2.5), hx.Bool(true)}),
+			hx.AnyAny([2]*hx.Val{hx.Str("1"), one}, [2]*hx.Val{hx.Int("int64", 1), hx.Int("int64", 2)}),
+			hx.Map("int64", true, [2]*hx.Val{hx.Int("int64", 1), one}), hx.Map("other", true, [2]*hx.Val{hx.Bool(true), hx.Str("x")}),
+			hx.Map("nstr", true, [2]*hx.Val{hx.Named(hx.Str("1")), one}), hx.AnyAny([2]*hx.Val{hx.Named(hx.Str("k")), one}),
+		} {
+			chain(s, nt, m, "objects:numeric-ids")
+		}
+	}
 	// undeclared key, non-string key, shorthand
 	extra := hx.AnyAny([2]*hx.Val{hx.Str("zz"), hx.Int("int64", 1)})
 	chain(s, t, extra, "objects:undeclared")
@@ -571,6 +608,7 @@ func groupRecursionWitness(s *sink, g *hx.Gen) {
 	}
 	s.stats["witness:done"]++
 	groupNaNKeys(s)
+	groupDeepValues(s)
 	t := &hx.Ty{T: "scope", Root: "A", Objs: []hx.NamedObj{{ID: "A", Ty: &hx.Ty{T: "obj", ID: "A",
 		Props: []hx.NamedProp{{Name: "next", P: &hx.Prop{Ty: &hx.Ty{T: "ref", ID: "A"}}}}}}}}
 	for _, v := range []*hx.Val{hx.Int("int64", 5), hx.Str("x"), hx.Nil()} {
@@ -707,6 +745,10 @@ func groupDupKeys(s *sink, g *hx.Gen) {
 // from the rule and the container path alone. Keys of the enclosing maps include characters that are
 // special to fmt (%), to regexps and to paths.
 func groupRules(s *sink, g *hx.Gen) {
+	if s.stats["errorvalues:done"] == 0 || g.R.Intn(40) == 0 {
+		s.stats["errorvalues:done"]++
+		groupErrorValues(s, g)
+	}
 	leaf := func() *hx.Ty {
 		return []*hx.Ty{{T: "int"}, {T: "str"}, {T: "bool"}}[g.R.Intn(3)]
 	}
@@ -839,6 +881,149 @@ func groupRules(s *sink, g *hx.Gen) {
 			if len(viol) > 0 && r.R == "ok" {
 				s.finding(Finding{Prop: "C03", What: "an input violating a presence rule is accepted", Cases: []int{id}, Schema: t, Input: arg, Detail: viol})
 			}
+		}
+	}
+}
+
+// groupErrorValues: errors are values. A rejection returned by one call must not change when later
+// calls are rejected (a shared error object whose path is extended in place would): several
+// rejections are collected on one schema instance, and the path and text of each is read again after
+// all calls have been made. Also run from several goroutines at once (C13).
+func groupErrorValues(s *sink, g *hx.Gen) {
+	inner := &hx.Ty{T: "obj", ID: "Lim", Props: []hx.NamedProp{
+		{Name: "cpu", P: &hx.Prop{Ty: &hx.Ty{T: "int"}, Required: true}}, {Name: "mem", P: &hx.Prop{Ty: &hx.Ty{T: "int"}}}}}
+	item := &hx.Ty{T: "obj", ID: "Item", Props: []hx.NamedProp{
+		{Name: "name", P: &hx.Prop{Ty: &hx.Ty{T: "str"}, Required: true}}, {Name: "limits", P: &hx.Prop{Ty: inner}}}}
+	t := &hx.Ty{T: "obj", ID: "Doc", Props: []hx.NamedProp{
+		{Name: "containers", P: &hx.Prop{Ty: &hx.Ty{T: "list", Item: item}}},
+		{Name: "sidecars", P: &hx.Prop{Ty: &hx.Ty{T: "map", K: &hx.Ty{T: "str"}, V: item}}}}}
+	sch := t.Build()
+	good := func(n string) map[string]any { return map[string]any{"name": n, "limits": map[string]any{"cpu": 1}} }
+	docs := []any{
+		map[string]any{"containers": []any{good("a"), map[string]any{"limits": map[string]any{"cpu": 1}}}},                        // containers[1].name missing
+		map[string]any{"sidecars": map[string]any{"log": map[string]any{"name": "l", "limits": map[string]any{"mem": 2}}}},         // sidecars[log].limits.cpu missing
+		map[string]any{"containers": []any{good("a"), good("b"), "bare string"}},                                                    // containers[2] not a map
+		map[string]any{"sidecars": map[string]any{"proxy": map[string]any{"limits": map[string]any{"cpu": 1}}}},                    // sidecars[proxy].name missing
+		map[string]any{"containers": []any{map[string]any{"name": "x", "limits": "not a map"}}},                                    // containers[0].limits not a map
+	}
+	type kept struct {
+		op   string
+		err  error
+		path []string
+		msg  string
+	}
+	collect := func(rounds int) []kept {
+		var ks []kept
+		for r := 0; r < rounds; r++ {
+			for _, d := range docs {
+				for _, op := range []string{"Unserialize", "Validate", "Serialize"} {
+					var err error
+					res := hx.Guard(func() hx.Result {
+						switch op {
+						case "Unserialize":
+							_, err = sch.Unserialize(d)
+						case "Validate":
+							err = sch.Validate(d)
+						default:
+							_, err = sch.Serialize(d)
+						}
+						return hx.Result{R: "ok"}
+					})
+					if res.R == "panic" || err == nil {
+						continue
+					}
+					er := hx.ErrResult(err)
+					ks = append(ks, kept{op, err, er.Path, err.Error()})
+				}
+			}
+		}
+		return ks
+	}
+	check := func(ks []kept, how string) {
+		bad := 0
+		for _, k := range ks {
+			now := hx.ErrResult(k.err)
+			s.stats["errorvalues:"+how]++
+			if !samePath(now.Path, k.path) || k.err.Error() != k.msg {
+				bad++
+				s.stats["errorvalues:bad"]++
+				if bad <= 3 {
+					s.finding(Finding{Prop: "C17", What: "a rejection's path changed after it was returned (" + how + "): errors of different calls share state",
+						Detail: []string{k.op, "when returned: " + pathText(k.path), "read again later: " + pathText(now.Path)}})
+				}
+			}
+		}
+	}
+	before := s.stats["errorvalues:bad"]
+	check(collect(2), "sequential")
+	s.findings.Flush()
+	if s.stats["errorvalues:bad"] > before {
+		return // shared state already shown; running it concurrently only corrupts memory further
+	}
+	// concurrently: every goroutine keeps its own errors; all are re-read at the end
+	var mu sync.Mutex
+	var all []kept
+	var wg sync.WaitGroup
+	for i := 0; i < 4; i++ {
+		wg.Add(1)
+		go func() {
+			defer wg.Done()
+			ks := collect(3)
+			mu.Lock()
+			all = append(all, ks...)
+			mu.Unlock()
+		}()
+	}
+	wg.Wait()
+	// the first-read paths themselves must be one of the paths the same call gives when run alone
+	alone := map[string]bool{}
+	for _, k := range collect(1) {
+		alone[k.op+"|"+pathText(k.path)] = true
+	}
+	for _, k := range all {
+		if !alone[k.op+"|"+pathText(k.path)] {
+			s.finding(Finding{Prop: "C13", What: "a rejection returned under concurrent use carries a path no call gives when run alone", Detail: []string{k.op, pathText(k.path)}})
+			break
+		}
+	}
+	check(all, "concurrent")
+}
+
+// groupDeepValues: a recursive schema whose objects nest through a list and through a map, and values
+// 40 levels deep: every operation must return (in time linear in the value: a child process with a
+// deadline; doing the work of a level twice per level would take 2^40 steps).
+func groupDeepValues(s *sink) {
+	node := &hx.Ty{T: "obj", ID: "Node", Props: []hx.NamedProp{
+		{Name: "v", P: &hx.Prop{Ty: &hx.Ty{T: "int"}, Required: true}},
+		{Name: "children", P: &hx.Prop{Ty: &hx.Ty{T: "list", Item: &hx.Ty{T: "ref", ID: "Node"}}}},
+		{Name: "entries", P: &hx.Prop{Ty: &hx.Ty{T: "map", K: &hx.Ty{T: "str"}, V: &hx.Ty{T: "ref", ID: "Node"}}}}}}
+	t := &hx.Ty{T: "scope", Root: "Node", Objs: []hx.NamedObj{{ID: "Node", Ty: node}}}
+	var deep func(d int, viaList bool) *hx.Val
+	deep = func(d int, viaList bool) *hx.Val {
+		m := hx.StrAny([2]*hx.Val{hx.Str("v"), hx.Int("int64", int64(d))})
+		if d > 0 {
+			if viaList {
+				m.M = append(m.M, [2]*hx.Val{hx.Str("children"), hx.List(deep(d-1, !viaList))})
+			} else {
+				m.M = append(m.M, [2]*hx.Val{hx.Str("entries"), hx.StrAny([2]*hx.Val{hx.Str("k"), deep(d-1, !viaList)})})
+			}
+		}
+		return m
+	}
+	v := deep(40, true)
+	for _, op := range []string{"U", "V", "S", "C"} {
+		s.nextID++
+		c := hx.Case{ID: s.nextID, Op: op, Schema: t, V: v, Ext: hx.MkExt(t, v), Fuel: 2000, Cmp: "class", Note: "deep-value"}
+		b, _ := json.Marshal(c)
+		s.cases.Write(b)
+		s.cases.WriteByte('\n')
+		res := runCaseIsolated(c)
+		rb, _ := json.Marshal(res)
+		s.results.Write(rb)
+		s.results.WriteByte('\n')
+		if res.R == "fuel" {
+			s.finding(Finding{Prop: "C04", What: "operation " + op + " on a value 40 levels deep (recursive schema through a list and a map) does not return within the deadline",
+				Cases: []int{c.ID}, Schema: t, Detail: []string{"deep-value", res.Msg}})
 		}
 	}
 }
